@@ -14,6 +14,15 @@ chk("C13", "shadowsym", "model_checking",
     "Trusted: the shadowsym proxies (SymStr/SymChar/SymInt) mirror str/int semantics for the operations used; z3. Outside: lines longer than the bound, directive-only lines, the corpus-wide 132-column clause.",
     "dynamic symbolic execution of Python byte-code with z3 (own engine shadowsym), validity queries per path", "DESIGN.md 3/C13")
 
+chk("C09", "shadowsym", "model_checking",
+    "Bounded symbolic execution of the real declast.Parser on symbolic token streams (token = z3 integer over a finite alphabet of spellings): every sequence of <= N tokens from the start symbol, every window mutation (<= 2 tokens replaced by k symbolic tokens) and every prefix+symbolic-tail of 32 seed declarations. z3 decides which parser branches are feasible; each accepted path is one concrete declaration, judged against an independent reference declarator reader (structure, renderings gen_decl/gen_arg_as_cxx/gen_arg_as_c re-read by the reference, parse(gen_decl(parse(d))) round trip through the real tokenizer).",
+    "Trusted: gen/refdecl.py as the C++ meaning of the documented subset; the finite alphabet; z3. Accepted inputs the reference cannot give a C++ meaning (semantic:*) are counted, not judged. A real compiler's is_same is outside the technique.",
+    "dynamic symbolic execution of Python byte-code with z3 (shadowsym) over symbolic token streams + independent reference reader", "DESIGN.md 3/C09")
+chk("C17", "shadowsym", "model_checking",
+    "Same exploration as C09, judged for rejection behaviour: on every path (i.e. for every token sequence satisfying its path condition) the outcome must be acceptance or a RuntimeError-class diagnostic with a message; internal exceptions (AttributeError, TypeError, KeyError, IndexError, ValueError, ...) and acceptance of unbalanced brackets, dangling '=' / ',' / '+' / '::' or keyword confusion are violations, each replayed through the real regex tokenizer and Parser before it is reported.",
+    "Trusted: reference grammar's notion of dangling/unbalanced text; finite alphabet; z3. Attribute-combination and YAML-structure validation are covered by separate kernels listed in the evidence (when present).",
+    "dynamic symbolic execution of Python byte-code with z3 (shadowsym) over symbolic token streams", "DESIGN.md 3/C17")
+
 NA = {
  "C01": "generated Fortran run-time behaviour: no Fortran front end yields anything a solver can execute; C-side kernels covered under C02/C06/C10",
  "C04": "finite structural comparison of two emitted texts with a Fortran processor's interoperability rules as oracle; nothing symbolic to decide",
